@@ -20,7 +20,7 @@ import (
 )
 
 type wfilter struct {
-	kind int // 0 all, 1 k == v, 2 n > x
+	kind int // 0 all, 1 k == v, 2 n > x, 3 o exists, 4 o does not exist
 	v    int
 }
 
@@ -30,6 +30,10 @@ func (f wfilter) build() any {
 		return map[string]any{"k": f.v}
 	case 2:
 		return map[string]any{"n": map[string]any{"$gt": f.v}}
+	case 3:
+		return map[string]any{"o": map[string]any{"$exists": true}}
+	case 4:
+		return map[string]any{"o": map[string]any{"$exists": false}}
 	}
 	return nil
 }
@@ -40,6 +44,10 @@ func (f wfilter) match(d doc) bool {
 		return d.k == f.v
 	case 2:
 		return d.n > f.v
+	case 3:
+		return d.o != 0 // present, with null or with a value
+	case 4:
+		return d.o == 0
 	}
 	return true
 }
@@ -50,13 +58,28 @@ func (f wfilter) String() string {
 		return fmt.Sprintf("k==%d", f.v)
 	case 2:
 		return fmt.Sprintf("n>%d", f.v)
+	case 3:
+		return "o-exists"
+	case 4:
+		return "o-absent"
 	}
 	return "all"
 }
 
-type doc struct{ id, k, n int }
+// o: 0 = field "o" absent, 1 = present with an explicit null, 2 = present with the value "x"
+// (a present null must count as existing for $exists – seeded change c13d broke exactly that)
+type doc struct{ id, k, n, o int }
 
-func (d doc) m() map[string]any { return map[string]any{"id": d.id, "k": d.k, "n": d.n} }
+func (d doc) m() map[string]any {
+	m := map[string]any{"id": d.id, "k": d.k, "n": d.n}
+	switch d.o {
+	case 1:
+		m["o"] = nil
+	case 2:
+		m["o"] = "x"
+	}
+	return m
+}
 
 type ev struct{ id, op int }
 
@@ -161,7 +184,7 @@ func oneCase(c *lib.Ctx, rng *lib.RNG, sc *lib.Script, fails *[]lib.OracleFail) 
 			if len(r.ws) >= 4 {
 				continue
 			}
-			f := wfilter{kind: rng.Intn(3), v: rng.Intn(3)}
+			f := wfilter{kind: rng.Intn(5), v: rng.Intn(3)}
 			w := &watcher{id: len(r.ws) + 1, f: f}
 			wctx := ctx
 			if rng.Bool() {
@@ -177,7 +200,7 @@ func oneCase(c *lib.Ctx, rng *lib.RNG, sc *lib.Script, fails *[]lib.OracleFail) 
 			r.op(fmt.Sprintf("watch %d", w.id), "ok")
 			c.Hit("op-watch-" + f.String()[:1])
 		case 1: // insert one (maybe duplicate id)
-			d := doc{id: rng.Intn(6), k: rng.Intn(3), n: rng.Intn(4)}
+			d := doc{id: rng.Intn(6), k: rng.Intn(3), n: rng.Intn(4), o: rng.Intn(3)}
 			err := r.st.Insert(ctx, []any{d.m()})
 			_, dup := r.docs[d.id]
 			if (err != nil) != dup {
@@ -197,7 +220,7 @@ func oneCase(c *lib.Ctx, rng *lib.RNG, sc *lib.Script, fails *[]lib.OracleFail) 
 			var batch []any
 			var ds []doc
 			for j := 0; j < n; j++ {
-				d := doc{id: rng.Intn(7), k: rng.Intn(3), n: rng.Intn(4)}
+				d := doc{id: rng.Intn(7), k: rng.Intn(3), n: rng.Intn(4), o: rng.Intn(3)}
 				ds = append(ds, d)
 				batch = append(batch, d.m())
 			}
@@ -234,7 +257,22 @@ func oneCase(c *lib.Ctx, rng *lib.RNG, sc *lib.Script, fails *[]lib.OracleFail) 
 				filter["id"] = upID // upsert creates {id: upID, k: v, n: nv}
 				ids = r.sortedIDs(func(d doc) bool { return d.k == v && d.id == upID })
 			}
-			n, err := r.st.Update(ctx, filter, map[string]any{"$set": map[string]any{"n": nv}}, opts...)
+			// the update may also set "o" to null / to a value, or unset it (not together with upsert)
+			oMode := 0
+			if !upsert {
+				oMode = rng.Intn(4)
+			}
+			set := map[string]any{"n": nv}
+			upd := map[string]any{"$set": set}
+			switch oMode {
+			case 1:
+				set["o"] = nil
+			case 2:
+				set["o"] = "x"
+			case 3:
+				upd["$unset"] = map[string]any{"o": 1}
+			}
+			n, err := r.st.Update(ctx, filter, upd, opts...)
 			if _, exists := r.docs[upID]; upsert && len(ids) == 0 && exists {
 				// the id exists with another k: the upsert's insert is a duplicate and must be rejected
 				if err == nil {
@@ -266,6 +304,14 @@ func oneCase(c *lib.Ctx, rng *lib.RNG, sc *lib.Script, fails *[]lib.OracleFail) 
 			for _, id := range ids {
 				d := r.docs[id]
 				d.n = nv
+				switch oMode {
+				case 1:
+					d.o = 1
+				case 2:
+					d.o = 2
+				case 3:
+					d.o = 0
+				}
 				r.docs[id] = d
 				r.emitDoc(d, 1, true)
 				kinds["upd"] = true
@@ -465,9 +511,9 @@ func stalled(c *lib.Ctx, rng *lib.RNG, fails *[]lib.OracleFail) {
 }
 
 func Run(c *lib.Ctx) {
-	c.Rule = "random histories (≤26 ops quick / ≤60 thorough) of watch (filters all | k==v | n>x) / insert / batch insert with duplicates / update / upsert / delete / consumer read / close / cancel on a real store with ≤4 watchers, compared line by line with Uniflow.Stream.step and with the harness's own owed-event FIFOs; non-trivial = at least one watcher and ≥3 different operation kinds took effect, distinct by full trace"
+	c.Rule = "random histories (≤26 ops quick / ≤60 thorough) of watch (filters all | k==v | n>x | o exists | o does not exist, documents with \"o\" absent / null / set) / insert / batch insert with duplicates / update / upsert / delete / consumer read / close / cancel on a real store with ≤4 watchers, compared line by line with Uniflow.Stream.step and with the harness's own owed-event FIFOs; non-trivial = at least one watcher and ≥3 different operation kinds took effect, distinct by full trace"
 	c.Assumptions = []string{
-		"filter matching and acceptance of a document by the segment are inputs of the model (they are C10/C12's subject); the harness evaluates the three watcher filter shapes itself",
+		"filter matching and acceptance of a document by the segment are inputs of the model (they are C10/C12's subject); the harness evaluates the five watcher filter shapes itself",
 		"after Close the Go pump may deliver or discard buffered events (select is random): the harness feeds the model exactly the events that were still delivered, the model checks they are the oldest queued ones in order",
 		"absence of an event is observed with a 25 ms poll (can only miss a spurious event, never raise a false alarm); owed events are awaited for 10 s",
 	}
